@@ -204,6 +204,8 @@ def stages():
         "RayleighFadingChannel(snr)": (lambda: A.RayleighFadingChannel(coherence_time=3, snr_db=5.0), True),
         "NonlinearChannel(tanh,power)": (lambda: A.NonlinearChannel(torch.tanh, add_noise=True, avg_noise_power=0.05), False),
         "NonlinearChannel(cubic,snr)": (lambda: A.NonlinearChannel(lambda t: t + 0.1 * t ** 3, add_noise=True, snr_db=15.0), True),
+        "NonlinearChannel(polar)": (lambda: A.NonlinearChannel(lambda t: t / (1 + 0.3 * t), add_noise=False, complex_mode="polar"), False),
+        "NonlinearChannel(cartesian)": (lambda: A.NonlinearChannel(torch.tanh, add_noise=True, avg_noise_power=0.02, complex_mode="cartesian"), False),
         "TotalPowerConstraint": (lambda: TotalPowerConstraint(2.0), False),
         "AveragePowerConstraint": (lambda: AveragePowerConstraint(0.5), False),
         "PAPRConstraint": (lambda: PAPRConstraint(max_papr=3.0), False),
@@ -271,8 +273,10 @@ def corr(ctx):
         for cplx in (False, True):
             if sname == "PeakAmplitudeConstraint" and cplx:
                 continue
-            for shape in ((2, 24), (2, 3, 8), (1, 16)) if ctx.thorough else ((2, 24), (2, 3, 8)):
-                if sname == "PerAntennaPowerConstraint" and len(shape) == 2:
+            for shape in ((2, 24), (2, 3, 8), (1, 16), (20,), (5, 6), (1, 2, 8)) if ctx.thorough else ((2, 24), (2, 3, 8), (1, 16), (20,)):
+                if sname == "PerAntennaPowerConstraint" and len(shape) < 3:
+                    continue
+                if sname in ("NonlinearChannel(polar)", "NonlinearChannel(cartesian)") and not cplx:
                     continue
                 g = torch.Generator().manual_seed(ctx.seed * 31 + len(shape))
                 x = torch.randn(shape, dtype=D, generator=g) * rng.choice([0.3, 1.0, 4.0])
